@@ -7,6 +7,7 @@ import (
 	"path/filepath"
 	"regexp"
 	"sort"
+	"strconv"
 	"strings"
 	"time"
 )
@@ -92,35 +93,44 @@ type ExecResult struct {
 // ExecSubprocess runs one tape (or one materialised case) in a fresh process
 // of bin. A race-detector death comes back as a violation.
 func ExecSubprocess(bin, prop string, opt RunOpt, tape []uint32, caseRaw json.RawMessage) (*Violation, error) {
+	v, _, err := ExecSubprocessSeed(bin, prop, opt, tape, caseRaw, 0)
+	return v, err
+}
+
+// ExecSubprocessSeed: with runSeed != 0 the child generates the run from that
+// seed instead of replaying a tape. It also returns the tape the child
+// recorded (nil if the child died). The child is killed after 90 s: code under
+// test that starts goroutines of its own can wedge the cooperative schedule.
+func ExecSubprocessSeed(bin, prop string, opt RunOpt, tape []uint32, caseRaw json.RawMessage, runSeed uint64) (*Violation, []uint32, error) {
 	dir, err := os.MkdirTemp(ScratchDir(), "exec-")
 	if err != nil {
-		return nil, err
+		return nil, nil, err
 	}
 	defer os.RemoveAll(dir)
 	in := filepath.Join(dir, "in.json")
-	b, _ := json.Marshal(map[string]any{"prop": prop, "opt": opt, "tape": tape, "case": caseRaw})
+	b, _ := json.Marshal(map[string]any{"prop": prop, "opt": opt, "tape": tape, "case": caseRaw, "run_seed": runSeed})
 	if err := os.WriteFile(in, b, 0o644); err != nil {
-		return nil, err
+		return nil, nil, err
 	}
-	code, out := RunSelfSplit(bin, RaceEnv(), "exec", in)
+	code, out := RunSelfSplit(bin, append(RaceEnv(), "VERIFSIM_EXEC_TIMEOUT_S=90"), "exec", in)
 	switch code {
 	case 0:
 		var r ExecResult
 		if err := json.Unmarshal([]byte(out.Stdout), &r); err != nil {
-			return nil, fmt.Errorf("exec: bad output: %v: %.300s", err, out.Stdout)
+			return nil, nil, fmt.Errorf("exec: bad output: %v: %.300s", err, out.Stdout)
 		}
 		if r.Violation != nil && r.Violation.Tape == nil {
 			r.Violation.Tape = r.Tape
 		}
-		return r.Violation, nil
+		return r.Violation, r.Tape, nil
 	case RaceExit:
 		sig, detail, ok := ParseRace(out.Stderr)
 		if !ok {
-			return nil, fmt.Errorf("exec: exit %d without a race report: %.500s", code, out.Stderr)
+			return nil, nil, fmt.Errorf("exec: exit %d without a race report: %.500s", code, out.Stderr)
 		}
-		return &Violation{Property: prop, Sig: sig, Detail: detail, Tape: tape, Case: caseRaw, EventHash: fmt.Sprintf("%016x", HashString(sig))}, nil
+		return &Violation{Property: prop, Sig: sig, Detail: detail, Tape: tape, Case: caseRaw, EventHash: fmt.Sprintf("%016x", HashString(sig))}, nil, nil
 	}
-	return nil, fmt.Errorf("exec: exit %d: %.800s", code, out.Stderr)
+	return nil, nil, fmt.Errorf("exec: exit %d: %.800s", code, out.Stderr)
 }
 
 // ExecMain is the body of `verifsim exec <file>`.
@@ -131,10 +141,17 @@ func ExecMain(path string) int {
 		return 2
 	}
 	var in struct {
-		Prop string          `json:"prop"`
-		Opt  RunOpt          `json:"opt"`
-		Tape []uint32        `json:"tape"`
-		Case json.RawMessage `json:"case"`
+		Prop    string          `json:"prop"`
+		Opt     RunOpt          `json:"opt"`
+		Tape    []uint32        `json:"tape"`
+		Case    json.RawMessage `json:"case"`
+		RunSeed uint64          `json:"run_seed"`
+	}
+	if v, err := strconv.Atoi(os.Getenv("VERIFSIM_EXEC_TIMEOUT_S")); err == nil && v > 0 {
+		time.AfterFunc(time.Duration(v)*time.Second, func() {
+			fmt.Fprintln(os.Stderr, "exec: WATCHDOG: did not finish in time")
+			os.Exit(3)
+		})
 	}
 	if err := json.Unmarshal(b, &in); err != nil {
 		fmt.Fprintln(os.Stderr, err)
@@ -155,6 +172,9 @@ func ExecMain(path string) int {
 		res.Violation = v
 	} else {
 		t := ReplayTape(in.Tape)
+		if in.RunSeed != 0 {
+			t = NewTape(in.RunSeed)
+		}
 		res.Violation = e.Run(t, in.Opt, nil)
 		res.Tape = t.Recorded()
 	}
@@ -166,6 +186,7 @@ func ExecMain(path string) int {
 // is mapped to the run it was executing; the run's tape is regenerated from
 // its seed (generation is a pure function of the seed).
 func RaceDeath(e Engine, seed uint64) func(leg *Leg, worker, exitCode int, stderr string, lastRun int) (*Violation, error) {
+	handled := map[string]int{}
 	return func(leg *Leg, worker, exitCode int, stderr string, lastRun int) (*Violation, error) {
 		if exitCode != RaceExit {
 			return nil, nil
@@ -177,14 +198,32 @@ func RaceDeath(e Engine, seed uint64) func(leg *Leg, worker, exitCode int, stder
 		rs := Mix(seed, uint64(lastRun))
 		v := &Violation{Property: e.ID(), Sig: sig, Detail: detail, Leg: leg.Name, Tier: leg.Opt.Tier, Seed: seed, Run: lastRun, RunSeed: rs,
 			EventHash: fmt.Sprintf("%016x", HashString(sig))}
-		// confirm alone, in a fresh process, and pick up tape + case
-		bin := leg.Bin
-		full := fullTape(e, rs, leg.Opt)
-		r, err := ExecSubprocess(bin, e.ID(), leg.Opt, full, nil)
-		if err != nil {
-			return nil, Infra("re-running run %d alone: %v", lastRun, err)
+		// every worker of the leg may die on the same race: re-execute only the
+		// first report of each class, the others are recorded by seed
+		handled[sig]++
+		if handled[sig] > 1 {
+			v.Params = map[string]string{"regenerate_from_run_seed": "1"}
+			for k, x := range leg.Opt.Params {
+				v.Params[k] = x
+			}
+			return v, nil
 		}
-		if r == nil || !strings.HasPrefix(r.Sig, "data-race:") {
+		// the run's tape: regenerated from its seed in a fresh process of the PLAIN
+		// build (never in this process: code that starts goroutines of its own
+		// could wedge the controller); if that process wedges, the violation is
+		// reported with its seed only and replay regenerates the run from it
+		_, full, terr := ExecSubprocessSeed("", e.ID(), leg.Opt, nil, nil, rs)
+		if terr != nil || full == nil {
+			v.Detail += "\n(the run could not be re-executed to completion in the plain build, probably because the code under test starts goroutines of its own; the replay file regenerates the run from its seed)"
+			v.Params = map[string]string{"regenerate_from_run_seed": "1"}
+			for k, x := range leg.Opt.Params {
+				v.Params[k] = x
+			}
+			return v, nil
+		}
+		// confirm alone, in a fresh process of the race build
+		r, err := ExecSubprocess(leg.Bin, e.ID(), leg.Opt, full, nil)
+		if err != nil || r == nil || !strings.HasPrefix(r.Sig, "data-race:") {
 			v.Detail += "\n(the report did not come back when run " + fmt.Sprint(lastRun) + " was executed alone in a fresh process)"
 			v.Tape = full
 			return v, nil
@@ -194,17 +233,12 @@ func RaceDeath(e Engine, seed uint64) func(leg *Leg, worker, exitCode int, stder
 	}
 }
 
-// fullTape regenerates the recorded tape of a run by executing it in this
-// (non-race) process.
-func fullTape(e Engine, runSeed uint64, opt RunOpt) []uint32 {
-	t := NewTape(runSeed)
-	e.Run(t, opt, nil)
-	return t.Recorded()
-}
-
 // MinimiseSubprocess shrinks a tape whose violation only shows in another
 // binary (the race build).
 func MinimiseSubprocess(bin string, e Engine, v *Violation, opt RunOpt, maxExec int) *Violation {
+	if len(v.Tape) == 0 {
+		return v // seed-only violation (see RaceDeath)
+	}
 	deadline := time.Now().Add(45 * time.Second)
 	test := func(tp []uint32) bool {
 		if time.Now().After(deadline) {
